@@ -26,6 +26,12 @@ SIG = {"D1": "create_linked_view:job_ids-empty:links-an-unselected-job",
        "D3": "create_linked_view:directory-named-job:taken-for-a-link",
        "D5": "create_linked_view:stale-link-on-the-path-of-a-new-link:creates-entries-inside-a-job-directory"}
 ALL5 = ["auto", "id", "tree", "flat", "const"]
+# job_ids is documented as "iterable": every spelling of the same ids is the same CreateView(a) of the specification
+SPELLS = ["list", "tuple", "set", "genexp", "iter", "map", "dictkeys", "cursor"]
+
+
+def _spell(eid, a):
+    return SPELLS[eid % len(SPELLS)] if a["kind"] == "ids" else "list"
 
 
 def universes(quick, d5fixed=True):
@@ -187,7 +193,7 @@ def _describe(uni, e):
     return "%s %r" % (e["op"], uni.sp_of[e["j1"]])
 
 
-def _step(sb, uni, op, j1, j2, a):
+def _step(sb, uni, op, j1, j2, a, spell="list"):
     """execute one action on the sandbox -> (result class name, exception)"""
     if op == "add":
         sb.add(j1)
@@ -196,7 +202,7 @@ def _step(sb, uni, op, j1, j2, a):
     elif op == "rekey":
         sb.rekey(j1, j2)
     elif op == "view":
-        return sb.create_view(a)
+        return sb.create_view(a, spell=spell)
     else:
         raise core.MachineryError("unknown op %r" % op)
     return "ok", None
@@ -206,7 +212,7 @@ def _strip(links):
     return {k: v.split("(")[0] for k, v in links.items()}
 
 
-def _judge_view(sb, uni, a, ws_tokens, pre, real_res, exc, obs, want, scratch=True, ins=None):
+def _judge_view(sb, uni, a, ws_tokens, pre, real_res, exc, obs, want, scratch=True, ins=None, scratch_spell="list"):
     """requirement verdict of one real create_linked_view execution -> (kind | None, text)"""
     links, dirs, other = obs
     wres, wlinks, wdirs, sel = _want_for(want, a, ws_tokens, pre)
@@ -219,19 +225,20 @@ def _judge_view(sb, uni, a, ws_tokens, pre, real_res, exc, obs, want, scratch=Tr
         kind = "writes-inside-job-directory"
         text += "; entries INSIDE job directories before %s, after %s" % (sorted(ins[0]), sorted(ins[1]))
     if kind is None and real_res == "ok" and scratch:
-        r2, e2, obs2 = sb.scratch_build(a)
+        r2, e2, obs2 = sb.scratch_build(a, scratch_spell if a["kind"] == "ids" else "list")
         if r2 != "ok" or (_strip(obs2[0]), obs2[1], obs2[2]) != (_strip(links), dirs, other):
             kind = "incremental-differs-from-scratch-build"
-            text += "; real from-scratch build in a sibling directory: %s links=%s dirs=%s" % (r2, dict(sorted(obs2[0].items())), sorted(obs2[1]))
+            text += "; real from-scratch build in a sibling directory%s: %s links=%s dirs=%s" % (
+                " [job_ids spelled as %s]" % scratch_spell if a["kind"] == "ids" and scratch_spell != "list" else "", r2, dict(sorted(obs2[0].items())), sorted(obs2[1]))
     return kind, text
 
 
-def _script(uni, g, edge_ids):
-    return [{"op": g.edges[i]["op"], "j1": g.edges[i]["j1"], "j2": g.edges[i]["j2"],
+def _script(uni, g, edge_ids, force_list=False):
+    return [{"op": g.edges[i]["op"], "j1": g.edges[i]["j1"], "j2": g.edges[i]["j2"], "spell": "list" if force_list else _spell(i, g.edges[i]["a"]),
              "a": {k: (sorted(v) if isinstance(v, frozenset) else v) for k, v in g.edges[i]["a"].items()}} for i in edge_ids]
 
 
-def _run_walk(uname, walk, root, wid, stop_on_problem=True):
+def _run_walk(uname, walk, root, wid, stop_on_problem=True, force_list=False):
     """replay one walk; -> dict(covered edge ids, violations [(sig, what, replay)], drift [...], steps)"""
     g, uni, want = _G[uname]
     sb = Sandbox(os.path.join(root, "%s-%s" % (uname, wid)), uni)
@@ -246,9 +253,10 @@ def _run_walk(uname, walk, root, wid, stop_on_problem=True):
             if e["src"] != cur:
                 break                                # an earlier nondeterministic step went elsewhere: rest is re-planned
             pre = (_strip(obs[0]), obs[1])           # the view as observed after the previous step
-            res, exc = _step(sb, uni, e["op"], e["j1"], e["j2"], e["a"])
+            spell = "list" if force_list else _spell(eid, e["a"])
+            res, exc = _step(sb, uni, e["op"], e["j1"], e["j2"], e["a"], spell)
             out["steps"] += 1
-            out["keys"].add((uname, e["src"], repr(g.action_key(e))))
+            out["keys"].add((uname, e["src"], repr(g.action_key(e)), spell))
             obs = sb.view()
             ws_real = sb.ws()
             links, dirs, other = obs
@@ -264,15 +272,17 @@ def _run_walk(uname, walk, root, wid, stop_on_problem=True):
                         and ins == uni.inside_of(node["inside"]):
                     matched = ae
                     break
-            here = "universe %s, after %s: %s" % (uname, [_describe(uni, g.edges[i]) for i in walk[:n]], _describe(uni, e))
-            rp = {"universe": uname, "quick": _G["__quick__"], "d5": _G.get("__d5__", True), "steps": _script(uni, g, walk[:n + 1])}
+            here = "universe %s, after %s: %s%s" % (uname, [_describe(uni, g.edges[i]) for i in walk[:n]], _describe(uni, e),
+                                                    " [job_ids spelled as %s]" % spell if spell != "list" else "")
+            rp = {"universe": uname, "quick": _G["__quick__"], "d5": _G.get("__d5__", True), "steps": _script(uni, g, walk[:n + 1], force_list)}
             if e["op"] != "view":
                 if matched is None:
                     raise core.MachineryError("%s: workspace operation does not behave as modelled (real ws %s, result %s %s)" % (here, sorted(ws_real), res, exc))
                 out["covered"].append(matched["id"])
                 cur, prev_action = matched["dst"], g.action_key(e)
                 continue
-            kind, text = _judge_view(sb, uni, e["a"], g.nodes[e["src"]]["ws"], pre, res, exc, obs, want, scratch=(eid % every == 0), ins=(ins_pre, ins))
+            kind, text = _judge_view(sb, uni, e["a"], g.nodes[e["src"]]["ws"], pre, res, exc, obs, want, scratch=(eid % every == 0), ins=(ins_pre, ins),
+                                     scratch_spell="list" if force_list else SPELLS[(eid + 3) % len(SPELLS)])
             rerun = ":on-rerun" if prev_action == g.action_key(e) else ""
             rp["want"] = [x if not isinstance(x, (set, frozenset)) else sorted(x) for x in _want_for(want, e["a"], g.nodes[e["src"]]["ws"], pre)]
             if matched is not None:
@@ -322,6 +332,10 @@ def _replay_chunk(item):
         for sig, what, rp in o["viol"]:
             if sig in res["viol"] and len(res["viol"][sig][1]["steps"]) <= 4:
                 continue
+            if res.setdefault("confirm", 0) >= 8:          # enough re-executions in this chunk: keep the violation as it is
+                res["viol"].setdefault(sig, (what, rp))
+                continue
+            res["confirm"] += 1
             # confirm on the shortest history that reaches the same edge
             eid_steps = rp["steps"]
             short = None
@@ -333,6 +347,15 @@ def _replay_chunk(item):
                     short = next(((s2, w2, r2) for s2, w2, r2 in o2["viol"] if s2 == sig), None)
             if short:
                 sig, what, rp = short
+            last = rp["steps"][-1]
+            if last.get("spell", "list") != "list" and not sig.startswith("create_linked_view:"):
+                # the same history with job_ids as a plain list: if the requirement then holds, the SPELLING is what breaks it
+                walk2 = w[:len(eid_steps)] if not short else shortest_path_to(g, g.edges[w[len(eid_steps) - 1]]["src"]) + [w[len(eid_steps) - 1]]
+                o3 = _run_walk(uname, walk2, root, "%d-%d-l" % (base, i), force_list=True)
+                if not o3["viol"]:
+                    kind = "one-shot" if last["spell"] in ("genexp", "iter", "map", "cursor") else last["spell"]
+                    sig = "view:job_ids-as-%s-iterable:%s" % (kind, sig.split(":", 1)[1])
+                    what += " -- with job_ids as a list the same history meets the requirement"
             if sig not in res["viol"] or len(rp["steps"]) < len(res["viol"][sig][1]["steps"]):
                 res["viol"][sig] = (what, rp)
     return res
@@ -405,9 +428,10 @@ def _sim_replay(item):
                 continue
             pre_l, pre_d, _ = sb.view()
             pre = (_strip(pre_l), pre_d)
-            res, exc = _step(sb, uni, last["op"], last["j1"], last["j2"], last["a"])
+            spell = SPELLS[(idx + len(script)) % len(SPELLS)] if last["a"]["kind"] == "ids" else "list"
+            res, exc = _step(sb, uni, last["op"], last["j1"], last["j2"], last["a"], spell)
             out["steps"] += 1
-            script.append({"op": last["op"], "j1": last["j1"], "j2": last["j2"], "a": {k: (sorted(v) if isinstance(v, frozenset) else v) for k, v in last["a"].items()}})
+            script.append({"op": last["op"], "j1": last["j1"], "j2": last["j2"], "spell": spell, "a": {k: (sorted(v) if isinstance(v, frozenset) else v) for k, v in last["a"].items()}})
             out["keys"].add(("sim", repr(sorted(ws_model)), repr(sorted(pre[0].items())), repr(script[-1])))
             obs = sb.view()
             links, dirs, other = obs
@@ -415,7 +439,8 @@ def _sim_replay(item):
             ml, md = uni.view_of(st["view"])
             conform = res_matches(res, exc, last["res"]) and sb.ws() == st["ws"] and (_strip(links), dirs) == (ml, md) and not other \
                 and ins == uni.inside_of((x["j"], x["p"]) for x in st["inside"])
-            here = "universe sim (random history), step %d of %s" % (len(script), [s["op"] for s in script])
+            here = "universe sim (random history), step %d of %s%s" % (len(script), [s["op"] for s in script],
+                                                                         " [job_ids spelled as %s]" % spell if spell != "list" else "")
             rp = {"universe": "sim", "quick": _G["__quick__"], "d5": _G.get("__d5__", True), "steps": list(script)}
             if last["op"] != "view":
                 if not conform:
@@ -460,6 +485,8 @@ def run(ctx):
     ctx.cov["deviation_flags_probed"] = flags
     unis = universes(ctx.quick, flags["FixedD5"])
     _G["__d5__"] = flags["FixedD5"]
+    for u in unis:       # a set has no order: only spelled that way when no order-dependent deviation (D2, D4) is open
+        u.order_free = flags["FixedD2"] and flags["FixedD4"]
     if os.environ.get("VERIF_C17_ONLY"):          # development aid: restrict the run to some universes
         unis = [u for u in unis if u.name in os.environ["VERIF_C17_ONLY"].split(",")]
     if not flags["FixedD4"]:
@@ -535,6 +562,7 @@ def run(ctx):
     lap("edge replay done")
     # ---- random long histories over a larger universe (-simulate) ----------------------------------------
     sim = sim_universe()
+    sim.order_free = flags["FixedD2"] and flags["FixedD4"]
     path, consts = _write_mc(ctx.work, sim, flags, "sim")
     wantf = os.path.join(ctx.work, "sim.want.ndjson")
     r = tlc.run(path, cfg_text=tlc.cfg(consts, invariants=["TypeOK"], postcondition="Export", constraints=["Level1"]), workdir=ctx.work,
@@ -612,6 +640,7 @@ def _selftest(ctx, uni):
 
 def replay(ctx, data):
     uni = {u.name: u for u in universes(data.get("quick", True), data.get("d5", True)) + [sim_universe()]}[data["universe"]]
+    uni.order_free = True
     sb = Sandbox(os.path.join(ctx.work, "replay"), uni)
     print("state points:", uni.sp_of)
     res, exc, pre = "ok", None, ({}, set())
@@ -621,10 +650,11 @@ def replay(ctx, data):
         pre = (_strip(pre_l), pre_d)
         ws = sb.ws()
         ins_before = sb.inside()
-        res, exc = _step(sb, uni, st["op"], st["j1"], st["j2"], a)
+        res, exc = _step(sb, uni, st["op"], st["j1"], st["j2"], a, st.get("spell", "list"))
         links, dirs, other = sb.view()
         print("%-6s %s -> %s%s\n        view links=%s dirs=%s" % (st["op"], st["j1"] + (" -> " + st["j2"] if st["j2"] else "") if st["op"] != "view" else
-              "job_ids=%s path=%r order=%s" % ("None" if a["kind"] == "all" else sorted(a["S"]), uni.path_arg(a["ps"]), a["ord"]),
+              "job_ids=%s%s path=%r order=%s" % ("None" if a["kind"] == "all" else sorted(a["S"]), " (as %s)" % st.get("spell", "list") if a["kind"] == "ids" else "",
+                                                 uni.path_arg(a["ps"]), a["ord"]),
               res, " (%s)" % exc if exc else "", dict(sorted(links.items())), sorted(dirs)))
     ins = sb.inside()
     print("entries inside job directories before the last step: %s, after: %s" % (sorted(ins_before), sorted(ins)))
